@@ -208,6 +208,9 @@ func (ex *Exec) abstractCall(st *PState, fn *ssa.Function, full string, args []V
 	if ex.isFelt(rt) {
 		return ex.feltMethod(st, fn, args), true
 	}
+	if ex.absKindPtr(rt) == "xexp" {
+		return ex.xexpMethod(st, fn, args)
+	}
 	return ex.bigMethod(st, fn, args), true
 }
 
@@ -303,4 +306,45 @@ func (ex *Exec) realMethod(st *PState, fn *ssa.Function, args []Value) Value {
 	}
 	fail("no summary for method %s on abstracted type", fn.String())
 	return nil
+}
+
+
+func (ex *Exec) absKindPtr(t types.Type) string {
+	if p, ok := t.(*types.Pointer); ok {
+		t = p.Elem()
+	}
+	return ex.absKind(t)
+}
+
+// xexpMethod: interpretation X. An element of a multiplicative group generated from one atom g is
+// represented by its exponent e (value g^e): Mul adds, Square doubles, Inverse negates. Methods
+// without a summary are inlined (they must be built from the summarised ones).
+func (ex *Exec) xexpMethod(st *PState, fn *ssa.Function, args []Value) (Value, bool) {
+	ts := ex.ts
+	recv := args[0]
+	L := func(i int) *Term { return ex.ldT(st, args[i]) }
+	set := func(v *Term) Value {
+		ex.store(st, recv, v)
+		return recv
+	}
+	switch fn.Name() {
+	case "Set":
+		return set(L(1)), true
+	case "SetOne":
+		return set(ts.Int64(0)), true
+	case "Mul":
+		return set(ts.Add(L(1), L(2))), true
+	case "Square":
+		return set(ts.Mul(ts.Int64(2), L(1))), true
+	case "Inverse":
+		return set(ts.Neg(L(1))), true
+	case "Equal":
+		return ts.Eq(L(0), L(1)), true
+	case "Conjugate", "InverseUnitary":
+		// on the cyclotomic subgroup conjugation is inversion
+		return set(ts.Neg(L(1))), true
+	case "CyclotomicSquare":
+		return set(ts.Mul(ts.Int64(2), L(1))), true
+	}
+	return nil, false
 }
